@@ -346,6 +346,27 @@ Proof.
   apply scan_loop_good, blocks_fuel_enough.
 Qed.
 
+Theorem read_entries_total pol b : good (read_entries pol b).
+Proof.
+  unfold read_entries.
+  pose proof (new_file_reader_good b) as G.
+  destruct (fst (new_file_reader b)) as [op| | |]; simpl in G; try contradiction; try exact I.
+  apply read_blocks_good_le, blocks_fuel_mono, skipN_length.
+Qed.
+
+Theorem calc_fragmentation_total pol b : good (calc_fragmentation pol b).
+Proof.
+  unfold calc_fragmentation. apply good_bind; [apply read_entries_total|]. intros; exact I.
+Qed.
+
+Theorem read_all_blocks_total pol b : good (read_all_blocks pol b).
+Proof.
+  unfold read_all_blocks.
+  pose proof (new_file_reader_good b) as G.
+  destruct (fst (new_file_reader b)) as [op| | |]; simpl in G; try contradiction; try exact I.
+  apply good_bind; [apply read_blocks_good_le, blocks_fuel_mono, skipN_length|]. intros; exact I.
+Qed.
+
 Theorem read_swamp_name_total pol b : good (read_swamp_name pol b).
 Proof.
   unfold read_swamp_name.
